@@ -16,8 +16,15 @@ mod verif_standins {
     fn check<G: Group<Scalar = Scalar>, const N: usize>() {
         let mut rng = rng();
         let p = PedersenParameters::<G, N>::new(&mut rng);
-        let lat = vec![Scalar::zero(), Scalar::one(), -Scalar::one(), Scalar::from(2), Scalar::random(&mut rng)];
-        for r in &lat { for pos in 0..N { for v in &lat { for fill in [Scalar::zero(), *r, Scalar::from(5)] {
+        let rs = vec![Scalar::zero(), Scalar::one(), -Scalar::one(), Scalar::from(2), Scalar::random(&mut rng)];
+        let two63 = Scalar::from(1u64 << 63);
+        // message values: small, small negative, word boundaries, values with only high bytes set, random
+        let lat = vec![
+            Scalar::zero(), Scalar::one(), Scalar::from(2), Scalar::from(255), Scalar::from(256), -Scalar::one(), -Scalar::from(2), -Scalar::from(255), -Scalar::from(256),
+            Scalar::from((1u64 << 63) - 1), two63, Scalar::from(u64::MAX), Scalar::from(u64::MAX) + Scalar::one(), Scalar::from_raw([0, 0, 1, 0]),
+            Scalar::from_raw([1000, 0, 0, 0x2a << 56]), Scalar::from_raw([5, 0, 0, 3 << 56]), Scalar::random(&mut rng),
+        ];
+        for r in &rs { for pos in 0..N { for v in &lat { for fill in [Scalar::zero(), *r, Scalar::from(5)] {
             let mut m = [fill; N]; m[pos] = *v;
             let bf = BlindingFactor::from_scalar(*r);
             let com = Message::new(m).commit(&p, bf);
